@@ -80,14 +80,15 @@ func ModelRun(m *MCtx, hooks Hooks) (escaped any) {
 
 // World owns the scripts and the per-request state of the real side.
 type World struct {
-	mu     sync.Mutex
-	nextID int
-	reqs   map[string]*ReqState
-	nreq   int
-	Sched  *Sched              // non-nil: handlers park at OpYield
-	Router *rux.Router         // set by Program.Apply: the router nested requests go to
-	Subs   bool                // nested requests (OpSub) enabled
-	lent   [][]rux.HandlerFunc // handler slices handed to registration calls (see reuseLentSlices)
+	mu         sync.Mutex
+	nextID     int
+	reqs       map[string]*ReqState
+	nreq       int
+	Sched      *Sched              // non-nil: handlers park at OpYield
+	Router     *rux.Router         // set by Program.Apply: the router nested requests go to
+	Subs       bool                // nested requests (OpSub) enabled
+	lent       [][]rux.HandlerFunc // handler slices handed to registration calls (see reuseLentSlices)
+	lateCopies []*rux.Context      // copies kept by finished requests (their jobs go on reporting, see Handler)
 }
 
 // ReqState is the real-side state of one in-flight request.
@@ -99,7 +100,8 @@ type ReqState struct {
 	Req      *http.Request
 	Ctx      *rux.Context // the context the first handler saw (pointer identity = pool reuse)
 	First    func(c *rux.Context)
-	jobsDone bool // the background jobs of the kept copies have recorded their results
+	world    *World // the world this request belongs to
+	jobsDone bool   // the background jobs of the kept copies have recorded their results
 
 	Nested bool // this is a nested request issued by a handler
 
@@ -155,6 +157,14 @@ func (st *ReqState) FreezeCopies() {
 			c.SetStatus(598)
 		}
 		st.copyBase = append(st.copyBase, CopyText(c))
+	}
+	if !st.jobsDone && st.world != nil && len(st.Copies) > 0 {
+		// (called while the world's lock is free: Serve calls FreezeCopies after the dispatch returned)
+		st.world.mu.Lock()
+		if len(st.world.lateCopies) < 8 {
+			st.world.lateCopies = append(st.world.lateCopies, st.Copies...)
+		}
+		st.world.mu.Unlock()
 	}
 	st.keptBase = st.keptBase[:0]
 	for _, m := range st.Kept {
@@ -219,6 +229,14 @@ func (w *World) Handler(s *Script) rux.HandlerFunc {
 		st := w.state(c.Req)
 		if st.Ctx == nil {
 			st.Ctx = c
+			// the background jobs of EARLIER requests are still alive: right now one of them reports on its copy
+			// (a status on the copy's own response state) - while this request is in flight
+			w.mu.Lock() // (one job at a time touches a copy: the copies themselves are not shared between jobs)
+			for _, cp := range w.lateCopies {
+				cp.Resp.WriteHeader(597)
+				cp.SetStatus(596)
+			}
+			w.mu.Unlock()
 			if st.First != nil {
 				st.First(c)
 			}
@@ -265,7 +283,7 @@ func (w *World) NewRequest(method, path string, faults ...Fault) *ReqState {
 	w.mu.Lock()
 	w.nreq++
 	id := fmt.Sprintf("q%d", w.nreq)
-	st := &ReqState{ID: id, Tr: &Trace{}, Rec: NewRec(faults...)}
+	st := &ReqState{ID: id, Tr: &Trace{}, Rec: NewRec(faults...), world: w}
 	st.Req = &http.Request{Method: method, URL: &url.URL{Path: path}, Header: http.Header{"X-Req": {id}}, Proto: "HTTP/1.1", ProtoMajor: 1, ProtoMinor: 1}
 	w.reqs[id] = st
 	w.mu.Unlock()
